@@ -10,6 +10,7 @@ import NiftyVerif.Lemmas.CgReInv
 import NiftyVerif.Lemmas.CgReDescent
 import Mathlib.Tactic.NormNum
 import NiftyVerif.Lemmas.RVec
+import NiftyVerif.Lemmas.CgReSqrt
 
 namespace NiftyVerif.C15
 set_option linter.unusedSectionVars false
@@ -18,7 +19,7 @@ set_option linter.unusedTactic false
 open NiftyVerif.CgRe NiftyVerif.Iter
 
 variable {K V : Type} [Field K] [LinearOrder K] [IsStrictOrderedRing K] [AddCommGroup V] [Module K V]
-variable (c : Cfg K) (ip : V → V → K) (mat : V → V) (j : V) (x0 : Option V)
+variable (c : Cfg K) (ip : V → V → K) (nrm : V → K) (mat : V → V) (j : V) (x0 : Option V)
 
 /-- **Program equivalence.** For every configuration that allows at least one iteration (or whose start already
     solves the system), every operator (no linearity needed), every `ip`: the compiled solver returns exactly the
@@ -26,34 +27,34 @@ variable (c : Cfg K) (ip : V → V → K) (mat : V → V) (j : V) (x0 : Option V
     Guard: `maxiter = 0` with a non-zero initial residual is excluded — there `_cg` returns `info = 0` without
     iterating while `_static_cg` performs one step (witness `maxiter0_disagree` below). -/
 theorem static_eq_eager (hG : 0 < maxiterEff c ∨ (init ip mat j x0).gamma = 0) :
-    match cgEager c ip mat j x0 with
-    | .ok res => (cgStatic c ip mat j x0).obs = res.obs
-    | .error _ => (cgStatic c ip mat j x0).info = -1 :=
-  static_sim c ip mat j x0 hG
+    match cgEager c ip nrm mat j x0 with
+    | .ok res => (cgStatic c ip nrm mat j x0).obs = res.obs
+    | .error _ => (cgStatic c ip nrm mat j x0).info = -1 :=
+  static_sim c ip nrm mat j x0 hG
 
 /-- The compiled `while_loop` is decided (`info ≥ −1`) after at most `max maxiter 1` steps — the model's fuel
     `maxiter + 1` is never exhausted; holds for every configuration including `maxiter = 0`. -/
-theorem static_terminates : -1 ≤ (cgStatic c ip mat j x0).info := by
-  have := static_decided c ip mat j x0; omega
+theorem static_terminates : -1 ≤ (cgStatic c ip nrm mat j x0).info := by
+  have := static_decided c ip nrm mat j x0; omega
 
 /-- Whenever the eager solver returns, `info ≥ 0` and `nit ≤ maxiter` (so `info = −1` of the compiled solver
     corresponds exactly to a raised error, by `static_eq_eager`). -/
-theorem eager_info_range (res : Res K V) (h : cgEager c ip mat j x0 = .ok res) :
+theorem eager_info_range (res : Res K V) (h : cgEager c ip nrm mat j x0 = .ok res) :
     0 ≤ res.info ∧ res.nit ≤ maxiterEff c := by
   unfold cgEager at h
   simp only at h
   split_ifs at h with hz
   · simp only [Except.ok.injEq] at h; subst h; simp
-  · have := eagerLoop_range c ip mat j _ 1 _ (le_refl _) res h
+  · have := eagerLoop_range c ip nrm mat j _ 1 _ (le_refl _) res h
     exact ⟨this.1, by omega⟩
 
 /-- **Residual invariant.** For bilinear `ip` and linear `mat` (no symmetry, no definiteness): the residual variable
     the loop stops with is the true residual `A x − j` of the returned point and `γ` its squared norm — except after
     the first-step negative-curvature fallback, which moves `x` without updating `r`. -/
 theorem cg_residual_invariant (hip : Bilin ip) (hm : Linear (K := K) mat) (res : Res K V)
-    (h : cgEager c ip mat j x0 = .ok res) (hw : res.why ≠ .negCurvFirst) :
+    (h : cgEager c ip nrm mat j x0 = .ok res) (hw : res.why ≠ .negCurvFirst) :
     res.r = mat res.x - j ∧ res.gamma = ip res.r res.r :=
-  (cgEager_specA c ip mat j hip hm x0 res h).2.1 hw
+  (cgEager_specA c ip nrm mat j hip hm x0 res h).2.1 hw
 
 /-- **Success is reported only if the criterion is met.** `info = 0` (with `maxiter > 0`) implies, at the *true*
     residual / energy of the returned point: the start already solves the system, or `0 ≤ γ ≤ tiny`, or the residual
@@ -61,14 +62,14 @@ theorem cg_residual_invariant (hip : Bilin ip) (hm : Linear (K := K) mat) (res :
     (`E(x_prev) − E(x) < absdelta`, no increase beyond `eps|E|`, `nit ≥ miniter`), or a non-positive-curvature
     direction was met and failure was not requested. -/
 theorem cg_reports_success_only_if (hip : Bilin ip) (hm : Linear (K := K) mat) (res : Res K V)
-    (h : cgEager c ip mat j x0 = .ok res) (hinfo : res.info = 0) (hmax : 0 < maxiterEff c) :
+    (h : cgEager c ip nrm mat j x0 = .ok res) (hinfo : res.info = 0) (hmax : 0 < maxiterEff c) :
     (res.nit = 0 ∧ trueGamma ip mat j res.x = 0)
     ∨ (0 ≤ trueGamma ip mat j res.x ∧ trueGamma ip mat j res.x ≤ c.tiny)
-    ∨ (resActive c = true ∧ normLt c (ip j j) (trueGamma ip mat j res.x) = true ∧ miniterEff c ≤ res.nit)
+    ∨ (resActive c = true ∧ normLt c ip nrm j (mat res.x - j) = true ∧ miniterEff c ≤ res.nit)
     ∨ (miniterEff c ≤ res.nit ∧ ∃ a xp, c.absdelta = some a ∧ quadE ip mat j xp - quadE ip mat j res.x < a
         ∧ ¬ (quadE ip mat j xp - quadE ip mat j res.x < -(c.eps * absK (quadE ip mat j res.x))))
     ∨ (c.raiseNPD = false ∧ ∃ d, ip d (mat d) ≤ 0) := by
-  have hs := (cgEager_specA c ip mat j hip hm x0 res h).1
+  have hs := (cgEager_specA c ip nrm mat j hip hm x0 res h).1
   unfold FinalSpec at hs
   cases hw : res.why <;> rw [hw] at hs <;> simp only at hs
   · exact Or.inl ⟨hs.2.1, hs.2.2⟩
@@ -88,12 +89,12 @@ theorem cg_reports_success_only_if (hip : Bilin ip) (hm : Linear (K := K) mat) (
     by `static_eq_eager` the compiled solver returns the same. -/
 theorem spd_never_fails (hip : SymmBilin ip) (hm : Linear (K := K) mat) (hsa : SelfAdj ip mat)
     (hnn : ∀ a, 0 ≤ ip a a) (hpd : ∀ v : V, v ≠ 0 → 0 < ip v (mat v)) (heps : 0 ≤ c.eps) (htiny : 0 ≤ c.tiny) :
-    ∃ res, cgEager c ip mat j x0 = .ok res ∧ (res.info = 0 ∨ (res.info = (maxiterEff c : Int) ∧ res.nit = maxiterEff c)) := by
-  obtain ⟨res, h, hr⟩ := cgEager_spd c ip mat j hip hm hsa hnn hpd heps htiny x0
+    ∃ res, cgEager c ip nrm mat j x0 = .ok res ∧ (res.info = 0 ∨ (res.info = (maxiterEff c : Int) ∧ res.nit = maxiterEff c)) := by
+  obtain ⟨res, h, hr⟩ := cgEager_spd c ip nrm mat j hip hm hsa hnn hpd heps htiny x0
   refine ⟨res, h, ?_⟩
   rcases hr with h0 | hw
   · exact Or.inl h0
-  · have hs := (cgEager_specA c ip mat j hip.toBilin hm x0 res h).1
+  · have hs := (cgEager_specA c ip nrm mat j hip.toBilin hm x0 res h).1
     unfold FinalSpec at hs
     rw [hw] at hs
     exact Or.inr hs
@@ -103,12 +104,12 @@ theorem spd_never_fails (hip : SymmBilin ip) (hm : Linear (K := K) mat) (hsa : S
     `info = −1`; and more generally the eager solver never returns from a non-positive-curvature stop. -/
 theorem nonposdef_reports_failure (hraise : c.raiseNPD = true) (hmax : 0 < maxiterEff c) :
     (((init ip mat j x0).gamma ≠ 0 ∧ ip (init ip mat j x0).d (mat (init ip mat j x0).d) ≤ 0) →
-        (∃ e, cgEager c ip mat j x0 = .error e) ∧ (cgStatic c ip mat j x0).info = -1)
-    ∧ (∀ res, cgEager c ip mat j x0 = .ok res →
+        (∃ e, cgEager c ip nrm mat j x0 = .error e) ∧ (cgStatic c ip nrm mat j x0).info = -1)
+    ∧ (∀ res, cgEager c ip nrm mat j x0 = .ok res →
         res.why ≠ .zeroCurv ∧ res.why ≠ .negCurvLater ∧ res.why ≠ .negCurvFirst) := by
   constructor
   · rintro ⟨hz, hc⟩
-    have he : ∃ e, cgEager c ip mat j x0 = .error e := by
+    have he : ∃ e, cgEager c ip nrm mat j x0 = .error e := by
       obtain ⟨m, hm1⟩ : ∃ m, maxiterEff c = m + 1 := ⟨maxiterEff c - 1, by omega⟩
       unfold cgEager
       simp only [hz, if_false, hm1, eagerLoop]
@@ -119,11 +120,11 @@ theorem nonposdef_reports_failure (hraise : c.raiseNPD = true) (hmax : 0 < maxit
       · simp [heq, hraise]
     refine ⟨he, ?_⟩
     obtain ⟨e, he⟩ := he
-    have := static_sim c ip mat j x0 (Or.inl hmax)
+    have := static_sim c ip nrm mat j x0 (Or.inl hmax)
     rw [he] at this
     exact this
   · intro res h
-    have hstop : ∀ (fuel i : Nat) (s : St K V) res, eagerLoop c ip mat j fuel i s = .ok res →
+    have hstop : ∀ (fuel i : Nat) (s : St K V) res, eagerLoop c ip nrm mat j fuel i s = .ok res →
         res.why ≠ .zeroCurv ∧ res.why ≠ .negCurvLater ∧ res.why ≠ .negCurvFirst := by
       intro fuel
       induction fuel with
@@ -148,9 +149,9 @@ theorem nonposdef_reports_failure (hraise : c.raiseNPD = true) (hmax : 0 < maxit
     quadratic energy `E(x) = ½⟨A x,x⟩ − ⟨j,x⟩` not above `E(x₀)`; by `static_eq_eager` the same holds for the
     compiled solver's result. -/
 theorem nonposdef_energy_not_above_start (hip : SymmBilin ip) (hm : Linear (K := K) mat)
-    (hsa : SelfAdj ip mat) (hnn : ∀ a, 0 ≤ ip a a) (res : Res K V) (h : cgEager c ip mat j x0 = .ok res) :
+    (hsa : SelfAdj ip mat) (hnn : ∀ a, 0 ≤ ip a a) (res : Res K V) (h : cgEager c ip nrm mat j x0 = .ok res) :
     quadE ip mat j res.x ≤ quadE ip mat j (x0.getD 0) :=
-  cgEager_energy c ip mat j hip hm hsa hnn x0 res h
+  cgEager_energy c ip nrm mat j hip hm hsa hnn x0 res h
 
 /-- **First step is steepest descent.** If failure is not requested and the very first direction `g = ∇E(x₀) = A x₀ − j`
     has negative curvature, the solver returns `x₀ − t·g` with `t = ⟨g,g⟩ / (−⟨g,A g⟩) > 0`, `info = 0`, `nit = 1`,
@@ -158,15 +159,22 @@ theorem nonposdef_energy_not_above_start (hip : SymmBilin ip) (hm : Linear (K :=
 theorem first_step_steepest_descent (hip : SymmBilin ip) (hm : Linear (K := K) mat) (hsa : SelfAdj ip mat)
     (hnn : ∀ a, 0 ≤ ip a a) (hraise : c.raiseNPD = false) (hmax : 0 < maxiterEff c)
     (g : V) (hg : g = mat (x0.getD 0) - j) (hg0 : ip g g ≠ 0) (hcurv : ip g (mat g) < 0) :
-    ∃ res, cgEager c ip mat j x0 = .ok res ∧ res.x = x0.getD 0 - (ip g g / -ip g (mat g)) • g
+    ∃ res, cgEager c ip nrm mat j x0 = .ok res ∧ res.x = x0.getD 0 - (ip g g / -ip g (mat g)) • g
       ∧ 0 < ip g g / -ip g (mat g) ∧ res.info = 0 ∧ res.nit = 1
       ∧ quadE ip mat j res.x < quadE ip mat j (x0.getD 0)
-      ∧ (cgStatic c ip mat j x0).obs = res.obs := by
-  obtain ⟨res, h1, h2, h3, h4, h5, h6⟩ := cgEager_first_step c ip mat j hip hm hsa hnn x0 hraise hmax g hg hg0 hcurv
+      ∧ (cgStatic c ip nrm mat j x0).obs = res.obs := by
+  obtain ⟨res, h1, h2, h3, h4, h5, h6⟩ := cgEager_first_step c ip nrm mat j hip hm hsa hnn x0 hraise hmax g hg hg0 hcurv
   refine ⟨res, h1, h2, h3, h4, h5, h6, ?_⟩
-  have := static_sim c ip mat j x0 (Or.inl hmax)
+  have := static_sim c ip nrm mat j x0 (Or.inl hmax)
   rw [h1] at this
   exact this
+
+/-- **The sqrt-free comparisons of the model are exact over ℝ**: `‖r‖₂ < ρ ⇔ 0 < ρ ∧ ⟨r,r⟩ < ρ²`, and for the residual bound
+    `_newton_cg` derives, `n < min(1/2, √m)·m ⇔ 0 < m ∧ 2n < m ∧ n² < m³` (`n = ‖r‖ ≥ 0`). -/
+theorem normLt_encodings_exact :
+    (∀ g rho : ℝ, 0 ≤ g → (Real.sqrt g < rho ↔ (0 < rho ∧ g < rho * rho)))
+    ∧ (∀ n m : ℝ, 0 ≤ n → (n < min (1 / 2) (Real.sqrt m) * m ↔ (0 < m ∧ (1 + 1) * n < m ∧ n * n < m * m * m))) :=
+  ⟨norm_two_encoding, resnorm_sqrt_encoding⟩
 
 /-! ### Non-vacuity: a concrete lawful instance (K = V = ℚ, ip = multiplication, A = multiplication by a) -/
 
@@ -174,7 +182,7 @@ section witnesses
 
 def cfgQ (maxiter : Option Nat) (raise : Bool) : Cfg ℚ :=
   { absdelta := none, resnorm := none, tol := 1 / 100000, atol := 0, miniter := none, maxiter := maxiter,
-    raiseNPD := raise, tiny := 1 / 10 ^ 300, eps := 1 / 10 ^ 15, nreset := 20, size := 1 }
+    raiseNPD := raise, normTwo := true, resnormSqrt := none, tiny := 1 / 10 ^ 300, eps := 1 / 10 ^ 15, nreset := 20, size := 1 }
 
 def ipQ (a b : ℚ) : ℚ := a * b
 
@@ -188,8 +196,8 @@ theorem mulQ_linear (a : ℚ) : Linear (K := ℚ) (fun x : ℚ => a * x) :=
 theorem mulQ_selfAdj (a : ℚ) : SelfAdj ipQ (fun x : ℚ => a * x) := fun x y => by simp [ipQ]; ring
 
 /-- the hypotheses of `first_step_steepest_descent` are satisfiable: A = −1, j = 1, x₀ = 0 -/
-example : ∃ res, cgEager (cfgQ none false) ipQ (fun x : ℚ => -1 * x) 1 none = .ok res ∧ res.info = 0 ∧ res.nit = 1 := by
-  obtain ⟨res, h1, _, _, h4, h5, _⟩ := first_step_steepest_descent (cfgQ none false) ipQ (fun x : ℚ => -1 * x) 1 none
+example : ∃ res, cgEager (cfgQ none false) ipQ (fun x : ℚ => |x|) (fun x : ℚ => -1 * x) 1 none = .ok res ∧ res.info = 0 ∧ res.nit = 1 := by
+  obtain ⟨res, h1, _, _, h4, h5, _⟩ := first_step_steepest_descent (cfgQ none false) ipQ (fun x : ℚ => |x|) (fun x : ℚ => -1 * x) 1 none
     ipQ_symmBilin (mulQ_linear (-1)) (mulQ_selfAdj (-1)) (fun a => by simp [ipQ]; nlinarith [sq_nonneg a]) rfl
     (by decide) (-1) (by simp) (by simp [ipQ]) (by simp [ipQ])
   exact ⟨res, h1, h4, h5⟩
@@ -201,9 +209,9 @@ example : 0 < maxiterEff (cfgQ none true) := by decide
     `_cg` returns `(0, info 0, nit 0)`, `_static_cg` performs one step and returns `(1/2, info 0, nit 1)`
     (replayed on the real code by the harness: corpus/C15/maxiter0.json). -/
 theorem maxiter0_disagree :
-    (cgEager (cfgQ (some 0) true) ipQ (fun x : ℚ => 2 * x) 1 none).toOption.map Res.obs
+    (cgEager (cfgQ (some 0) true) ipQ (fun x : ℚ => |x|) (fun x : ℚ => 2 * x) 1 none).toOption.map Res.obs
       = some ⟨0, 0, 0⟩ ∧
-    (cgStatic (cfgQ (some 0) true) ipQ (fun x : ℚ => 2 * x) 1 none).obs = ⟨1 / 2, 0, 1⟩ := by
+    (cgStatic (cfgQ (some 0) true) ipQ (fun x : ℚ => |x|) (fun x : ℚ => 2 * x) 1 none).obs = ⟨1 / 2, 0, 1⟩ := by
   constructor
   · simp [cgEager, init, eagerLoop, maxiterEff, cfgQ, ipQ, Res.obs, Except.toOption]
   · simp [cgStatic, staticInit, init, staticLoop, staticStep, staticInfo, staticInfo1, maxiterEff, miniterEff,
@@ -222,16 +230,16 @@ example {n : Nat} (c : ℚ) (a : RVec n) : (@HSMul.hSMul _ _ _ (@instHSMul _ _ M
 
 /-- residual invariant and success criterion for the driver instance: hypotheses discharged, any dense matrix -/
 theorem driver_residual_invariant {n : Nat} (c : Cfg ℚ) (m : Mat n n) (j : RVec n) (x0 : Option (RVec n))
-    (res : Res ℚ (RVec n)) (h : cgEager c RVec.dot (RVec.matVec m) j x0 = .ok res) (hw : res.why ≠ .negCurvFirst) :
+    (res : Res ℚ (RVec n)) (h : cgEager c RVec.dot RVec.norm1 (RVec.matVec m) j x0 = .ok res) (hw : res.why ≠ .negCurvFirst) :
     res.r = RVec.matVec m res.x - j ∧ res.gamma = RVec.dot res.r res.r :=
-  cg_residual_invariant c RVec.dot (RVec.matVec m) j x0 dot_symmBilin.toBilin (matVec_linear m) res h hw
+  cg_residual_invariant c RVec.dot RVec.norm1 (RVec.matVec m) j x0 dot_symmBilin.toBilin (matVec_linear m) res h hw
 
 /-- program equivalence for the driver instance -/
 theorem driver_static_eq_eager {n : Nat} (c : Cfg ℚ) (m : Mat n n) (j : RVec n) (x0 : Option (RVec n))
-    (hG : 0 < maxiterEff c) (res : Res ℚ (RVec n)) (h : cgEager c RVec.dot (RVec.matVec m) j x0 = .ok res) :
-    (cgStatic c RVec.dot (RVec.matVec m) j x0).obs = res.obs := by
-  have hs := static_eq_eager c RVec.dot (RVec.matVec m) j x0 (Or.inl hG)
-  have h' : cgEager c RVec.dot (RVec.matVec m) j x0 = .ok res := h
+    (hG : 0 < maxiterEff c) (res : Res ℚ (RVec n)) (h : cgEager c RVec.dot RVec.norm1 (RVec.matVec m) j x0 = .ok res) :
+    (cgStatic c RVec.dot RVec.norm1 (RVec.matVec m) j x0).obs = res.obs := by
+  have hs := static_eq_eager c RVec.dot RVec.norm1 (RVec.matVec m) j x0 (Or.inl hG)
+  have h' : cgEager c RVec.dot RVec.norm1 (RVec.matVec m) j x0 = .ok res := h
   rw [h'] at hs
   exact hs
 
